@@ -62,7 +62,7 @@ def _ev(ctx, rel, extra_globals=None):
     return ev
 
 
-def uc_model(ctx):
+def uc_model(ctx, rule='UC-MODEL'):
     mfn, vfn = ctx.fn(UC, 'model'), ctx.fn(UC, 'value_unit')
     loc = UC + '::model'
     cases = [('scalar', sp.Symbol('x0', real=True)), ('vector', symarray('x', (3,), real=True)), ('matrix', symarray('x', (2, 3), real=True)),
@@ -81,24 +81,42 @@ def uc_model(ctx):
                 keys = list(m.keys())
                 rank = np.ndim(x)
                 want = ['value'] + (['shape'] if rank >= 2 else []) + (['unit'] if unit else [])
-                ctx.ob('UC-MODEL', loc, '%s: keys written are %s' % (t, want), keys == want, str(keys), node=mfn, key=t + ' keys')
+                ctx.ob(rule, loc, '%s: keys written are %s' % (t, want), keys == want, str(keys), node=mfn, key=t + ' keys')
                 if rank >= 2:
-                    ctx.ob('UC-MODEL', loc, '%s: the recorded shape is the array\'s shape' % t, list(m['shape']) == list(np.shape(x)), str(m.get('shape')), node=mfn, key=t + ' shape')
+                    ctx.ob(rule, loc, '%s: the recorded shape is the array\'s shape' % t, list(m['shape']) == list(np.shape(x)), str(m.get('shape')), node=mfn, key=t + ' shape')
                 flat = [sp.sympify(v) for v in (np.ravel(np.array(m['value'], dtype=object)) if rank else [m['value']])]
                 wantv = [v / usym(unit) for v in (np.asarray(x, dtype=object).flatten() if rank else [x])]
-                ctx.ob('UC-MODEL', loc, '%s: stored numbers are the values divided by the unit, in C (row-major) order' % t, len(flat) == len(wantv) and all(is_zero(a - b) for a, b in zip(flat, wantv)),
+                ctx.ob(rule, loc, '%s: stored numbers are the values divided by the unit, in C (row-major) order' % t, len(flat) == len(wantv) and all(is_zero(a - b) for a, b in zip(flat, wantv)),
                        str(flat[:6]), node=mfn, key=t + ' values')
                 ev2 = _ev(ctx, UC)
                 r = [q for q in ev2.run_fn(vfn, [m], {}) if q.done == 'return']
                 ctx.need(len(r) == 1, 'uc.value_unit does not reduce to one path (%s)' % t)
                 back = r[0].ret
                 ok = np.shape(back) == np.shape(x) and equal(np.asarray(back, dtype=object), np.asarray(x, dtype=object), deep=False) if rank else is_zero(sp.sympify(back) - x)
-                ctx.ob('UC-MODEL', UC + '::value_unit', '%s: reading the model back gives the same array (shape and every element)' % t, bool(ok), 'got %s' % (np.asarray(back, dtype=object).tolist() if rank else back,), node=vfn, key=t + ' round trip')
+                ctx.ob(rule, UC + '::value_unit', '%s: reading the model back gives the same array (shape and every element)' % t, bool(ok), 'got %s' % (np.asarray(back, dtype=object).tolist() if rank else back,), node=vfn, key=t + ' round trip')
             except WouldRaise as e:
-                ctx.ob('UC-MODEL', loc, '%s: the writer/reader pair runs to completion' % t, False, str(e), node=mfn, key=t + ' runs')
+                ctx.ob(rule, loc, '%s: the writer/reader pair runs to completion' % t, False, str(e), node=mfn, key=t + ' runs')
             except Opaque as e:
                 raise AnalysisError('uc.model/value_unit (%s): %s' % (t, e))
-    ctx.floor('UC-MODEL', n, 12)
+    # a value with its error estimate: both are stored in the requested unit under their own keys and both read back
+    efn = ctx.fn(UC, 'error_unit')
+    for tag, x, err in (('vector with errors', symarray('x', (3,), real=True), symarray('e', (3,), real=True)), ('matrix with errors', symarray('x', (2, 3), real=True), symarray('e', (2, 3), real=True))):
+        for unit in ('GPa', None):
+            t = '%s, unit %s' % (tag, unit)
+            try:
+                p = [q for q in _ev(ctx, UC).run_fn(mfn, [x, unit], {'error': err}) if q.done == 'return']
+                ctx.need(len(p) == 1, 'uc.model does not reduce to one path (%s)' % t)
+                m = p[0].ret
+                rv = [q for q in _ev(ctx, UC).run_fn(vfn, [m], {}) if q.done == 'return']
+                re_ = [q for q in _ev(ctx, UC).run_fn(efn, [m], {}) if q.done == 'return']
+                ctx.need(len(rv) == 1 and len(re_) == 1, 'uc.value_unit / error_unit do not reduce to one path (%s)' % t)
+                ok = 'error' in m and equal(np.asarray(rv[0].ret, dtype=object), x, deep=False) and equal(np.asarray(re_[0].ret, dtype=object), err, deep=False) and np.shape(re_[0].ret) == np.shape(err)
+                ctx.ob(rule, UC + '::error_unit', '%s: the value and its error are both read back as written (same shape, same unit undone)' % t, bool(ok), node=efn, key=t + ' error round trip')
+            except WouldRaise as e:
+                ctx.ob(rule, loc, '%s: the writer/reader pair runs to completion' % t, False, str(e), node=mfn, key=t + ' runs')
+            except Opaque as e:
+                raise AnalysisError('uc.model/error_unit (%s): %s' % (t, e))
+    ctx.floor(rule, n, 12)
 
 
 def _box_obj(ctx, V, o, recip='STALE'):
